@@ -204,6 +204,84 @@ def inline_calls(prog, e, crate="svgbob", keep=None, depth=4, _stack=()):
     return go(e, depth)
 
 
+NEVER = ("never",)
+
+
+def simplify(e):
+    """push field projections through aggregates, phis and the desugaring of `?` so that
+    `match x { Some((a, b)) => .. }`, `if let`, `x?` and direct field access of the same value look alike:
+    field(agg Some{0: t}, (@Some, 0, ..)) -> t..;  field(phi(a | b), fs) -> phi(field(a, fs) | field(b, fs));
+    Try::branch(x).@Continue.0 -> x.@Some.0 (or @Ok.0);  from_residual(..) projected as a success -> dropped"""
+    memo = {}
+
+    def proj(x, fs):
+        """x already simplified; apply the projection fs"""
+        fs = tuple(fs)
+        if not fs:
+            return x
+        if not isinstance(x, tuple) or not x:
+            return ("field", x, fs)
+        k = x[0]
+        if k == "never":
+            return x
+        if k == "block" or k == "dom":  # wrappers used by some callers: keep opaque
+            return ("field", x, fs)
+        if k == "field":
+            return proj(x[1], tuple(x[2]) + fs)
+        if k == "phi":
+            alts = [proj(a, fs) for a in x[1]]
+            alts = [a for a in alts if a != NEVER]
+            if not alts:
+                return NEVER
+            uniq = []
+            for a in alts:
+                if a not in uniq:
+                    uniq.append(a)
+            return uniq[0] if len(uniq) == 1 else ("phi", tuple(uniq))
+        if k == "agg":
+            f0 = fs[0]
+            rest = fs[1:]
+            if isinstance(f0, str) and f0.startswith("@"):
+                if x[2] is not None and f0[1:] != x[2]:
+                    return NEVER
+                return proj(x, rest) if rest else x
+            comps = dict((str(n), v) for n, v in x[3])
+            if str(f0) in comps:
+                return proj(comps[str(f0)], rest)
+            return ("field", x, fs)
+        if k == "call":
+            name = x[1]
+            if name.endswith("FromResidual<core::option::Option<core::convert::Infallible>>>::from_residual") or "from_residual" in name:
+                if isinstance(fs[0], str) and fs[0] in ("@Some", "@Ok"):
+                    return NEVER
+            if name.endswith("Try>::branch") and len(fs) >= 2 and fs[0] == "@Continue" and fs[1] == "0" and x[2]:
+                succ = "@Some" if "option::Option" in name else "@Ok"
+                return proj(x[2][0], (succ, "0") + fs[2:])
+        return ("field", x, fs)
+
+    def go(x):
+        if not isinstance(x, tuple) or not x:
+            return x
+        key = id(x)
+        if key in memo:
+            return memo[key]
+        memo[key] = x  # cycle guard
+        if x[0] == "field" and len(x) >= 3:
+            r = proj(go(x[1]), x[2])
+        elif x[0] == "phi":
+            alts = [go(a) for a in x[1]]
+            alts = [a for a in alts if a != NEVER]
+            r = ("phi", tuple(alts)) if len(alts) != 1 else alts[0]
+        elif x[0] in ("const", "param", "static", "never"):
+            r = x
+        else:
+            r = tuple(go(y) if isinstance(y, tuple) else y for y in x)
+        memo[key] = r
+        return r
+
+    return go(e)
+
+
 def uncast(e):
     e = strip(e)
     while e[0] == "cast":
